@@ -56,6 +56,7 @@ type Spec struct {
 	Seed      int64             `json:"seed"`
 	Solver    string            `json:"solver"`
 	NoMerge   bool              `json:"nomerge"`
+	Havoc     []string          `json:"havoc"` // functions replaced by an unconstrained result (over-approximation)
 }
 
 // Result is what one harness run (one shard) reports.
@@ -130,6 +131,16 @@ func Run(spec *Spec) (res *Result) {
 		Shard: fmt.Sprintf("%d/%d", spec.ShardI, max1(spec.ShardN)), Shrunk: spec.Shrinks}
 	IntMode = spec.Arith == "int"
 	noMerge = spec.NoMerge
+	havocFns = map[string]bool{}
+	for _, h := range spec.Havoc {
+		if !strings.Contains(h, modPath) {
+			h = strings.Replace(h, "(*", "(*"+modPath+"/", 1)
+			if !strings.Contains(h, modPath) {
+				h = modPath + "/" + h
+			}
+		}
+		havocFns[h] = true
+	}
 	overlay, err := BuildOverlay(spec)
 	if err != nil {
 		res.Error = err.Error()
